@@ -294,6 +294,21 @@ def gen_cases(rng, tier):
     return cs
 
 
+def meta_of_req(req):
+    """rebuild the case description from the request line (replay files carry only the request)"""
+    t = req.split(' ')
+    wallets = [[(int(e.split(':')[0]), e.split(':')[1] == '1') for e in w.split(',')] for w in t[7].split(';')]
+    childs = [[bytes.fromhex(x) for x in a.split(',')] for a in t[8].split(';')]
+    return dict(k=t[1], m=int(t[2]), n=len(t[11].split(',')), sort=t[3] == '1', wallets=wallets, childs=childs,
+                inputs=t[9], chains=[] if t[10] == '-' else t[10].split(';'), cpath=int(t[6]), n_addr=len(childs))
+
+
+def _ensure_meta(c):
+    if c.meta is None:
+        c.meta = meta_of_req(c.req)
+    return c.meta
+
+
 def model_req(c):
     return c.req.rsplit(' ', 1)[0]
 
@@ -318,6 +333,7 @@ def parse_answer(out):
 
 
 def same(c, io, mo):
+    _ensure_meta(c)
     pi, pm = parse_answer(io), parse_answer(mo)
     if pi is None or pm is None:
         return io == mo
@@ -358,7 +374,7 @@ def walk_chain(chain, wallets):
 
 def chain_failures(c, io):
     """(chain, position, text, class) for every observation that contradicts the property statement"""
-    m = c.meta
+    m = _ensure_meta(c)
     p = parse_answer(io)
     fails = []
     if p is None:
@@ -401,7 +417,7 @@ def classify_chain(chain, m):
 
 
 def prop_check(c, io):
-    m = c.meta
+    m = _ensure_meta(c)
     if io.startswith('CRASH') or io == 'BADREQ':
         return 'unexpected answer %r' % io[:160]
     p = parse_answer(io)
@@ -445,7 +461,7 @@ def _known(cls):
 
 
 def prop_check_agreement_only(c, io):
-    saved = c.meta['chains']
+    saved = _ensure_meta(c)['chains']
     c.meta['chains'] = []
     try:
         return prop_check(c, io)
@@ -483,7 +499,7 @@ def golden(c, mo):
     p = parse_answer(mo)
     if p is None:
         return None
-    m = c.meta
+    m = _ensure_meta(c)
     wp, ap, xp = p
     lhs, rhs = [], []
     # wallet 0, address 0: redeem script from the supplied and derived keys
